@@ -5,6 +5,16 @@
 // starts further machines for it and the executor has to ship the whole invocation
 // graph to each of them, dependencies first.
 //
+// Dimensions: 10 result-DAG shapes on up to 5 invocations (single, chain, fan-in,
+// diamond, diamond+chain, ...) x clusters that grow to 1, 2, 3 and 6 machines of 2 procs
+// (the last step has 2*machines shards) x rounds (the executor walks the dependency
+// map in Go's random map order: every fresh machine that compiles the last invocation
+// is one independent draw of that order).
+//
+// Part (e) runs the same cells with ONE transient network error injected into the k-th
+// Worker.Compile RPC (verifsystem fault "neterr": the call fails, the machine stays
+// alive): the RPC layer retries it, and the invocation must still arrive.
+//
 // Oracle (statement: "arrive at a worker such that invoking there builds the same slice
 // as on the driver"): Run succeeds and the rows are the ones the operators prescribe
 // (computed here in plain Go).
@@ -36,16 +46,28 @@ type dagScenario struct {
 	steps []dagStep
 }
 
-const joinShards = 6
-
 var dagScenarios = []dagScenario{
+	{"single", []dagStep{{15, nil, 0}}},
+	{"chain", []dagStep{{15, nil, 0}, {16, []int{0}, 10}, {16, []int{1}, 100}, {17, []int{2, 2}, 0}}},
+	{"fan-in", []dagStep{{15, nil, 0}, {15, nil, 0}, {17, []int{0, 1}, 0}}},
 	{"diamond", []dagStep{{15, nil, 0}, {16, []int{0}, 10}, {17, []int{0, 1}, 0}}},
 	{"diamond-swapped", []dagStep{{15, nil, 0}, {16, []int{0}, 10}, {17, []int{1, 0}, 0}}},
 	{"deep", []dagStep{{15, nil, 0}, {16, []int{0}, 10}, {16, []int{1}, 100}, {18, []int{0, 1, 2}, 0}}},
 	{"deep-reversed", []dagStep{{15, nil, 0}, {16, []int{0}, 10}, {16, []int{1}, 100}, {18, []int{2, 1, 0}, 0}}},
 	{"same-result-twice", []dagStep{{15, nil, 0}, {17, []int{0, 0}, 0}}},
 	{"two-derived-of-one-base", []dagStep{{15, nil, 0}, {16, []int{0}, 10}, {16, []int{0}, 20}, {18, []int{1, 2, 0}, 0}}},
-	{"chain-only", []dagStep{{15, nil, 0}, {16, []int{0}, 10}, {16, []int{1}, 100}, {17, []int{2, 2}, 0}}},
+	{"diamond+chain", []dagStep{{15, nil, 0}, {16, []int{0}, 10}, {17, []int{0, 1}, 0}, {16, []int{2}, 1000}, {17, []int{3, 0}, 0}}},
+}
+
+// diamondLike reports whether the last invocation depends on an invocation both
+// directly and through another dependency (the shapes in which a wrong shipping order
+// is possible).
+func (sc dagScenario) diamondLike() bool {
+	switch sc.name {
+	case "single", "chain", "fan-in", "same-result-twice":
+		return false
+	}
+	return true
 }
 
 // expectedRows computes the rows of the last step in plain Go.
@@ -89,6 +111,17 @@ type dagResult struct {
 	FreshCompiles int // machines that compiled the join without having compiled anything before
 	JoinCompiles  int // machines that compiled the join
 	Crash         string
+	FaultFired    bool
+	CompileRPCs   int
+}
+
+// calmSys is verifsystem with generous keepalive deadlines (the driver side is the only
+// user of KeepaliveConfig): verifsystem's own 60 ms deadline kills machines when the
+// host is overloaded, which has nothing to do with the invocations under test.
+type calmSys struct{ *vsys.System }
+
+func (calmSys) KeepaliveConfig() (period, timeout, rpcTimeout time.Duration) {
+	return 2 * time.Second, 60 * time.Second, 20 * time.Second
 }
 
 // compileLog records, through the interposer, which host compiled which invocation.
@@ -121,29 +154,46 @@ func dagChildMain(spec string) {
 	// task that loses its machine 5 times in a row would otherwise fail the Run with
 	// "too many tries" -- an artefact of the test bed, not of the invocation.
 	exec.VerifSetMaxConsecutiveLost(false)
+	parts := strings.Split(spec, ";")
 	var sc *dagScenario
 	for i := range dagScenarios {
-		if dagScenarios[i].name == spec {
+		if dagScenarios[i].name == parts[0] {
 			sc = &dagScenarios[i]
 		}
 	}
-	if sc == nil {
-		fmt.Fprintln(os.Stderr, "unknown scenario", spec)
+	if sc == nil || len(parts) != 3 {
+		fmt.Fprintln(os.Stderr, "bad scenario spec", spec)
 		os.Exit(3)
 	}
-	res := runDag(*sc)
+	var machines, faultK int
+	fmt.Sscanf(parts[1], "%d", &machines)
+	fmt.Sscanf(parts[2], "%d", &faultK)
+	res := runDag(*sc, machines, faultK)
 	b, _ := json.Marshal(res)
 	fmt.Printf("C16D-RESULT %s\n", b)
 	os.Exit(0)
 }
 
-func runDag(sc dagScenario) (res dagResult) {
-	sys := vsys.New(2)
-	sys.MaxMachines = 12
+// runDag runs the scenario on a cluster that can grow to `machines` machines of 2 procs;
+// the last step has 2*machines shards. faultK > 0 injects one transient network error
+// into the faultK-th Worker.Compile RPC. A run takes ~0.3 s; watchdogs are 120 s.
+func runDag(sc dagScenario, machines, faultK int) (res dagResult) {
+	var faults []vsys.Fault
+	if faultK > 0 {
+		faults = append(faults, vsys.Fault{Label: fmt.Sprintf("Worker.Compile#%d", faultK), Variant: "neterr"})
+	}
+	sys := vsys.New(2, faults...)
 	cl := &compileLog{hosts: map[string]map[uint64]bool{}}
 	sys.Hook = cl.hook
-	sess := exec.Start(exec.Bigmachine(sys), exec.Parallelism(2*joinShards))
+	joinShards := 2 * machines
+	sess := exec.Start(exec.Bigmachine(calmSys{sys}), exec.Parallelism(2*machines))
 	// (no Shutdown: see runUnencodable)
+	defer func() {
+		res.CompileRPCs = sys.Count("Worker.Compile")
+		if f := sys.Fired(); len(f) > 0 {
+			res.FaultFired = f[0]
+		}
+	}()
 	var results []*exec.Result
 	last := len(sc.steps) - 1
 	for i, st := range sc.steps {
@@ -151,13 +201,20 @@ func runDag(sc dagScenario) (res dagResult) {
 		switch st.fn {
 		case 15:
 			args = []interface{}{1}
+			if i == len(sc.steps)-1 {
+				args = []interface{}{joinShards}
+			}
 		case 16:
 			args = []interface{}{results[st.args[0]], st.add}
 		default:
 			for _, a := range st.args {
 				args = append(args, results[a])
 			}
-			args = append(args, joinShards)
+			if i == len(sc.steps)-1 {
+				args = append(args, joinShards)
+			} else {
+				args = append(args, 1)
+			}
 		}
 		var before map[string]bool
 		if i == last {
@@ -169,7 +226,7 @@ func runDag(sc dagScenario) (res dagResult) {
 			cl.mu.Unlock()
 		}
 		// a normal distributed run takes ~0.2 s
-		r, err, hang := runWatch(sess, 60*time.Second, registry[st.fn], args...)
+		r, err, hang := runWatch(sess, 120*time.Second, registry[st.fn], args...)
 		if i != last {
 			if err != nil || hang {
 				res.SetupErr = fmt.Sprintf("producer step %d: err=%v hang=%v", i, err, hang)
@@ -215,7 +272,7 @@ func runDag(sc dagScenario) (res dagResult) {
 		}()
 		select {
 		case <-done:
-		case <-time.After(60 * time.Second):
+		case <-time.After(120 * time.Second):
 			res = dagResult{Hang: true, Machines: res.Machines, FreshCompiles: res.FreshCompiles, JoinCompiles: res.JoinCompiles}
 			return
 		}
@@ -224,20 +281,20 @@ func runDag(sc dagScenario) (res dagResult) {
 	return
 }
 
-func runDagChild(name string) (res dagResult) {
+func runDagChild(name string, machines, faultK int) (res dagResult) {
 	exe, err := os.Executable()
 	if err != nil {
 		res.SetupErr = err.Error()
 		return
 	}
-	cmd := osexec.Command(exe, "-c16d", name)
+	cmd := osexec.Command(exe, "-c16d", fmt.Sprintf("%s;%d;%d", name, machines, faultK))
 	var stdout, stderr strings.Builder
 	cmd.Stdout, cmd.Stderr = &stdout, &stderr
 	if err := cmd.Start(); err != nil {
 		res.SetupErr = err.Error()
 		return
 	}
-	timer := time.AfterFunc(6*time.Minute, func() { cmd.Process.Kill() })
+	timer := time.AfterFunc(15*time.Minute, func() { cmd.Process.Kill() })
 	werr := cmd.Wait()
 	timer.Stop()
 	out := stdout.String()
@@ -246,13 +303,20 @@ func runDagChild(name string) (res dagResult) {
 			return
 		}
 	}
+	// no result line: the driver process died (Go panic, runtime fatal error, or an abort
+	// in C code)
 	msg := stderr.String()
+	line := ""
 	for _, l := range strings.Split(msg, "\n") {
-		if strings.HasPrefix(l, "panic:") || strings.HasPrefix(l, "fatal error:") {
-			res.Crash = firstLine(l)
-			return
+		if strings.HasPrefix(l, "panic:") || strings.HasPrefix(l, "fatal error:") || strings.HasPrefix(l, "SIGABRT") ||
+			strings.HasPrefix(l, "SIGSEGV") || strings.Contains(l, "double free") || strings.Contains(l, "corrupted") {
+			line = l
+			break
 		}
 	}
-	res.SetupErr = fmt.Sprintf("child exited (%v) without result: %s", werr, firstLine(msg))
+	if line == "" {
+		line = fmt.Sprintf("exit: %v; stderr: %s", werr, firstLine(msg))
+	}
+	res.Crash = firstLine(line)
 	return
 }
